@@ -36,6 +36,9 @@ pub struct Scenario {
     pub watchdog_s: u64,
     /// largest single allocation a run may request
     pub alloc_cap: usize,
+    /// whether a run that kills or hangs its worker process counts as a violation of this
+    /// scenario's property (false where another property owns crash-freedom)
+    pub fatal_is_violation: bool,
 }
 
 impl Scenario {
@@ -56,6 +59,7 @@ impl Scenario {
             thorough,
             watchdog_s: 60,
             alloc_cap: alloc::DEFAULT_CAP,
+            fatal_is_violation: true,
         }
     }
     pub fn full_name(&self) -> String {
@@ -977,7 +981,14 @@ fn batch(scs: &[Scenario], exe: &std::path::Path, config: &str, args: &[String])
         );
         // group by key
         let mut by_key: BTreeMap<String, Vec<&Found>> = BTreeMap::new();
+        let fatal_runs = agg.found.iter().filter(|f| f.violation.oracle == "process-died" || f.violation.oracle == "hang").count();
+        if fatal_runs > 0 && !sc.fatal_is_violation {
+            println!("  {}: {} runs killed their worker (not judged by this property)", sc.full_name(), fatal_runs);
+        }
         for f in agg.found.iter() {
+            if !sc.fatal_is_violation && (f.violation.oracle == "process-died" || f.violation.oracle == "hang") {
+                continue;
+            }
             by_key.entry(f.violation.key()).or_default().push(f);
         }
         let mut reported = 0;
